@@ -58,10 +58,31 @@ func vfC14SameIntMap(a, b map[uint8]int) bool {
 	return ok
 }
 
-func vfC14CharStats(nmax, lmax int) {
+// vfC14EnumAlign builds an n x L alignment whose residues are enumerated (one path per
+// content) over the concrete set alpha. Used for the statistics that are implemented with
+// tables indexed by the character (130 entries, scanned entry by entry): with symbolic bytes
+// the engine would need one path per set of occurring characters and 130-way ite cells.
+func vfC14EnumAlign(alphabet, n, L int, alpha []uint8) (*align, [][]uint8) {
+	al := NewAlign(alphabet)
+	orig := make([][]uint8, n)
+	for i := 0; i < n; i++ {
+		s := make([]uint8, L)
+		orig[i] = make([]uint8, L)
+		for j := range s {
+			s[j] = alpha[nondetRange(0, len(alpha)-1)]
+			orig[i][j] = s[j]
+		}
+		if err := al.AddSequenceChar(vfNames[i], s, ""); err != nil {
+			panic("harness: cannot build alignment: " + err.Error())
+		}
+	}
+	return al, orig
+}
+
+func vfC14CharStats(nmax, lmax int, alpha []uint8) {
 	n := nondetRange(1, nmax)
 	L := nondetRange(1, lmax)
-	al, orig := vfSymAlign(NUCLEOTIDS, n, L, vfC14Print)
+	al, orig := vfC14EnumAlign(NUCLEOTIDS, n, L, alpha)
 
 	// whole alignment
 	cs := al.CharStats()
@@ -122,6 +143,12 @@ func vfC14CharStats(nmax, lmax int) {
 	for k := range uc {
 		verifAssert(k < len(uc2) && uc[k] == uc2[k], "UniqueCharacters: same answer twice")
 	}
+}
+
+func vfC14CharStatsSeqSite(nmax, lmax int) {
+	n := nondetRange(1, nmax)
+	L := nondetRange(1, lmax)
+	al, orig := vfSymAlign(NUCLEOTIDS, n, L, vfC14Print)
 
 	// one sequence
 	idx := nondetInt()
@@ -192,16 +219,27 @@ func vfC14CharStats(nmax, lmax int) {
 	}
 }
 
-// H_C14_charstats: CharStats, UniqueCharacters, CharStatsSeq, CharStatsSite are the case-folded counts; bad indices are errors; same answer twice.
-// bounds: n<=2 rows, L<=2 columns, residues any printable ASCII byte (mixed case), sequence and site index any 64-bit int
-// outside: n>2, L>2, bytes >= 0x80 (count tables have 130 entries)
-func H_C14_charstats() { vfC14CharStats(2, 2) }
+// H_C14_charstats: CharStats and UniqueCharacters are the case-folded counts / distinct characters of the whole alignment; same answer twice.
+// bounds: n<=2 rows, L<=2 columns, every content over the residues {A,a,c,N,-,~} (mixed case; ~ is the highest printable byte), enumerated
+// outside: n>2, L>2, other residues, bytes >= 0x80 (the count tables have 130 entries)
+func H_C14_charstats() { vfC14CharStats(2, 2, []uint8{'A', 'a', 'c', 'N', '-', '~'}) }
 
 // H_C14_charstats_deep: as H_C14_charstats, deeper.
-// bounds: n<=3 rows, L<=2 columns
+// bounds: n<=3 rows, L<=2 columns, every content over {A,a,c,-,~}
 // outside: n>3, L>2
-//verif: tier=thorough
-func H_C14_charstats_deep() { vfC14CharStats(3, 2) }
+// verif: tier=thorough
+func H_C14_charstats_deep() { vfC14CharStats(3, 2, []uint8{'A', 'a', 'c', '-', '~'}) }
+
+// H_C14_charstats_seq_site: CharStatsSeq and CharStatsSite are the case-folded counts of one row / one column; an index outside is an error, never a panic; same answer twice.
+// bounds: n<=2 rows, L<=2 columns, residues any printable ASCII byte (mixed case), sequence and site index any 64-bit int
+// outside: n>2, L>2, bytes >= 0x80
+func H_C14_charstats_seq_site() { vfC14CharStatsSeqSite(2, 2) }
+
+// H_C14_charstats_seq_site_deep: as H_C14_charstats_seq_site, deeper.
+// bounds: n<=3 rows, L<=3 columns
+// outside: n>3, L>3
+// verif: tier=thorough
+func H_C14_charstats_seq_site_deep() { vfC14CharStatsSeqSite(3, 3) }
 
 // vfC14CheckProfile: p must hold, for every residue and every site, the number of rows with that residue at that site.
 func vfC14CheckProfile(p *CountProfile, orig [][]uint8, n, L int) {
@@ -238,13 +276,13 @@ func vfC14CheckProfile(p *CountProfile, orig [][]uint8, n, L int) {
 	verifAssert(p.NbCharacters() == distinct, "profile has one entry per distinct residue")
 }
 
-// H_C14_profile: NewCountProfileFromAlignment holds the per-site count of every residue; a site outside is an error.
-// bounds: n<=2 rows, L<=2 columns, residues printable ASCII without lower-case letters (caveat a), site any 64-bit int
-// outside: lower-case residues (documentation silent on case folding of profiles: open question, not asserted), bytes >= 0x80
+// H_C14_profile: NewCountProfileFromAlignment holds the per-site count of every residue; a site outside is an error, never a panic.
+// bounds: n<=2 rows, L<=2 columns, every content over the residues {A,C,N,-,*,~} (no lower-case letters, caveat a), enumerated; site any 64-bit int
+// outside: other residues; lower-case residues (documentation silent on case folding of profiles: open question, not asserted); bytes >= 0x80
 func H_C14_profile() {
 	n := nondetRange(1, 2)
 	L := nondetRange(1, 2)
-	al, orig := vfSymAlign(NUCLEOTIDS, n, L, vfC14NoLower)
+	al, orig := vfC14EnumAlign(NUCLEOTIDS, n, L, []uint8{'A', 'C', 'N', '-', '*', '~'})
 	p := NewCountProfileFromAlignment(al)
 	verifReach("profile")
 	vfC14CheckProfile(p, orig, n, L)
@@ -260,10 +298,6 @@ func H_C14_profile() {
 	vfC14CheckProfile(p2, orig, n, L)
 }
 
-// ---------------------------------------------------------------------------------------
-// majority character / consensus
-
-// vfC14CheckMajority checks out (and occur/total when not nil) against the definition of the
 // most frequent case-folded character among the characters not excluded. Any of several
 // equally frequent characters is accepted (caveat c).
 func vfC14CheckMajority(out []uint8, occur, total []int, orig [][]uint8, n, L, alphabet int, ignoreGaps, ignoreNs bool) {
@@ -332,7 +366,7 @@ func vfC14CheckMajority(out []uint8, occur, total []int, orig [][]uint8, n, L, a
 // H_C14_maxchar_def: MaxCharStats and Consensus return a most frequent non-excluded character with its count, under every map iteration order.
 // bounds: (n<=3 rows, L=1 column) or (n<=2 rows, L=2 columns), residues printable ASCII (mixed case), both alphabets, the 4 combinations of ignoreGaps/ignoreNs
 // outside: larger shapes; columns whose residues are all excluded but of two kinds (gap and N): nothing is stated, nothing asserted
-//verif: maporder=1
+// verif: maporder=1
 func H_C14_maxchar_def() {
 	n, L := 0, 1
 	if nondetRange(0, 1) == 0 {
@@ -383,13 +417,13 @@ func vfC14MaxCharDet(nmax, lmax int) {
 // H_C14_maxchar_det: two evaluations of MaxCharStats on the same alignment agree (map iteration orders explored independently).
 // bounds: n<=3 rows, L=1 column, residues printable ASCII, both alphabets, 4 option combinations
 // outside: n>3, L>1
-//verif: maporder=1
+// verif: maporder=1
 func H_C14_maxchar_det() { vfC14MaxCharDet(3, 1) }
 
 // H_C14_consensus_det: two evaluations of Consensus on the same alignment give the same sequence.
 // bounds: n<=2 rows, L<=2 columns, residues printable ASCII, both alphabets, 4 option combinations
 // outside: n>2, L>2
-//verif: maporder=1
+// verif: maporder=1
 func H_C14_consensus_det() {
 	n := nondetRange(1, 2)
 	L := nondetRange(1, 2)
@@ -412,6 +446,10 @@ func H_C14_consensus_det() {
 // ---------------------------------------------------------------------------------------
 // entropy
 
+// vfC14Conc returns x. Under the engine a symbolic x is enumerated over its feasible values
+// (allocation size), so that the floating-point oracle works on concrete counts.
+func vfC14Conc(x int) int { return len(make([]uint8, x)) }
+
 // vfC14RefEntropy: -sum p ln p over the distinct residues of column j ('.' and '*' never
 // counted, '-' not counted when removegaps), by the same formula as documented (natural log).
 // ok is false when no residue is counted.
@@ -423,6 +461,7 @@ func vfC14RefEntropy(orig [][]uint8, n, j int, removegaps bool) (h float64, ok b
 			total++
 		}
 	}
+	total = vfC14Conc(total)
 	if total == 0 {
 		return 0, false
 	}
@@ -446,6 +485,7 @@ func vfC14RefEntropy(orig [][]uint8, n, j int, removegaps bool) (h float64, ok b
 				cnt++
 			}
 		}
+		cnt = vfC14Conc(cnt)
 		p := float64(cnt) / float64(total)
 		h -= p * math.Log(p)
 	}
@@ -477,18 +517,27 @@ func vfC14Entropy(nmax, lmax int) {
 	al, orig := vfSymAlign(NUCLEOTIDS, n, L, vfC14NoLower)
 	site := nondetRange(0, L-1)
 	rg := nondetRange(0, 1) == 1
-	want, ok := vfC14RefEntropy(orig, n, site, rg)
-	assume(ok) // a column without any counted residue has no entropy (0/0): nothing asserted
+	anyCounted := false
+	for i := 0; i < n; i++ {
+		c := orig[i][site]
+		if c != '*' && c != '.' && (!rg || c != '-') {
+			anyCounted = true
+		}
+	}
+	assume(anyCounted) // a column without any counted residue has no entropy (0/0): nothing asserted
 	h1, err1 := al.Entropy(site, rg)
 	h2, err2 := al.Entropy(site, rg)
 	verifMapOrder(false)
 	verifReach("entropy")
 	verifAssert(err1 == nil && err2 == nil, "Entropy: valid site accepted")
 	verifAssert(h1 == h2, "Entropy: same answer twice")
+	want, _ := vfC14RefEntropy(orig, n, site, rg)
 	verifAssert(h1 == want, "Entropy: equals -sum p ln p over the counted residues")
 	same := true
 	for i := 1; i < n; i++ {
-		same = same && orig[i][site] == orig[0][site]
+		if orig[i][site] != orig[0][site] {
+			same = false
+		}
 	}
 	if same {
 		verifReach("constant column")
@@ -496,73 +545,64 @@ func vfC14Entropy(nmax, lmax int) {
 	}
 }
 
-// H_C14_entropy: Entropy(site, removegaps) = -sum p ln p over the residues of the column (ln uninterpreted), same answer twice.
+// H_C14_entropy: Entropy(site, removegaps) = -sum p ln p over the residues of the column (ln uninterpreted), same answer twice under independent map iteration orders.
 // bounds: n<=3 rows, L<=2 columns, residues printable ASCII without lower-case letters, all sites in [0,L), removegaps any; columns with at least one counted residue
 // outside: IEEE rounding (real arithmetic, order of summation irrelevant), lower-case residues (case folding of entropy not documented), columns made only of - . * (0/0)
-//verif: maporder=1
+// verif: maporder=1 merge=0
 func H_C14_entropy() { vfC14Entropy(3, 2) }
 
 // H_C14_entropy_deep: as H_C14_entropy with 4 rows.
 // bounds: n<=4 rows, L<=2
 // outside: n>4
-//verif: maporder=1 tier=thorough
+// verif: maporder=1 merge=0 tier=thorough
 func H_C14_entropy_deep() { vfC14Entropy(4, 2) }
 
 // ---------------------------------------------------------------------------------------
 // variable sites, informative sites, alleles
 
-func vfC14SiteMeasures(nmax, lmax int) {
-	n := nondetRange(1, nmax)
-	L := nondetRange(1, lmax)
-	alphabet := vfC14Alphabet()
-	wild := vfC14Wild(alphabet)
-	al, orig := vfSymAlign(alphabet, n, L, vfC14Plain)
-	if alphabet == NUCLEOTIDS {
-		// "X, N and gaps are not considered": X in a nucleotide alignment is left out of the claim
-		for i := 0; i < n; i++ {
-			for j := 0; j < L; j++ {
-				assume(orig[i][j] != 'X')
+// vfC14ColumnCounts: number of distinct non-gap characters of column j, and number of
+// characters other than gap and the wildcard that occur at least twice.
+func vfC14ColumnCounts(orig [][]uint8, n, j int, wild uint8) (distinct, twice int) {
+	for i := 0; i < n; i++ {
+		c := orig[i][j]
+		if c == '-' {
+			continue
+		}
+		first := true
+		for i2 := 0; i2 < i; i2++ {
+			if orig[i2][j] == c {
+				first = false
 			}
+		}
+		if !first {
+			continue
+		}
+		distinct++
+		cnt := 0
+		for i2 := 0; i2 < n; i2++ {
+			if orig[i2][j] == c {
+				cnt++
+			}
+		}
+		if c != wild && cnt >= 2 {
+			twice++
 		}
 	}
-	nvar := al.NbVariableSites()
-	inf := al.InformativeSites()
-	verifReach("measures")
+	return
+}
 
-	wantVar := 0
-	alleles := 0
-	nongap := 0
-	wantInf := make([]bool, L)
+func vfC14Variable(nmax, lmax int) {
+	n := nondetRange(1, nmax)
+	L := nondetRange(1, lmax)
+	al, orig := vfSymAlign(NUCLEOTIDS, n, L, vfC14Plain)
+	nvar := al.NbVariableSites()
+	nvar2 := al.NbVariableSites()
+	avg := al.AvgAllelesPerSite()
+	avg2 := al.AvgAllelesPerSite()
+	verifReach("measures")
+	wantVar, alleles, nongap := 0, 0, 0
 	for j := 0; j < L; j++ {
-		// distinct non-gap characters of the column
-		d := 0
-		// characters (other than gap and the wildcard) occurring at least twice
-		twice := 0
-		for i := 0; i < n; i++ {
-			c := orig[i][j]
-			if c == '-' {
-				continue
-			}
-			first := true
-			for i2 := 0; i2 < i; i2++ {
-				if orig[i2][j] == c {
-					first = false
-				}
-			}
-			if !first {
-				continue
-			}
-			d++
-			cnt := 0
-			for i2 := 0; i2 < n; i2++ {
-				if orig[i2][j] == c {
-					cnt++
-				}
-			}
-			if c != wild && cnt >= 2 {
-				twice++
-			}
-		}
+		d, _ := vfC14ColumnCounts(orig, n, j, 'N')
 		if d > 1 {
 			wantVar++
 		}
@@ -570,42 +610,78 @@ func vfC14SiteMeasures(nmax, lmax int) {
 			nongap++
 		}
 		alleles += d
-		wantInf[j] = twice >= 2
 	}
 	verifAssert(nvar == wantVar, "NbVariableSites: sites with more than one distinct non-gap character")
-	verifAssert(al.NbVariableSites() == nvar, "NbVariableSites: same answer twice")
+	verifAssert(nvar2 == nvar, "NbVariableSites: same answer twice")
+	alleles, nongap = vfC14Conc(alleles), vfC14Conc(nongap)
+	if nongap > 0 {
+		verifReach("alleles")
+		verifAssert(avg == float64(alleles)/float64(nongap), "AvgAllelesPerSite: mean number of distinct non-gap characters over the sites that are not gap-only")
+		verifAssert(avg2 == avg, "AvgAllelesPerSite: same answer twice")
+	}
+}
+
+// H_C14_variable_alleles: NbVariableSites and AvgAllelesPerSite equal their naive definitions; same answer twice.
+// bounds: n<=3 rows, L<=2 columns, residues printable ASCII except lower-case letters, '.', '*'
+// outside: n>3, L>2; lower-case residues and . * (treatment not documented uniformly); alignments whose every column is gap-only for AvgAllelesPerSite (0/0, caveat b); IEEE rounding
+// verif: merge=0
+func H_C14_variable_alleles() { vfC14Variable(3, 2) }
+
+// H_C14_variable_alleles_deep: as H_C14_variable_alleles, deeper.
+// bounds: n<=4 rows, L<=2 columns
+// outside: n>4
+// verif: merge=0 tier=thorough
+func H_C14_variable_alleles_deep() { vfC14Variable(4, 2) }
+
+func vfC14Informative(n, L int, alphabet int, alpha []uint8) {
+	al, orig := vfC14EnumAlign(alphabet, n, L, alpha)
+	inf := al.InformativeSites()
+	inf2 := al.InformativeSites()
+	verifReach("informative")
 	k := 0
 	for j := 0; j < L; j++ {
-		if wantInf[j] {
+		_, twice := vfC14ColumnCounts(orig, n, j, vfC14Wild(alphabet))
+		if twice >= 2 {
 			verifReach("informative site")
 			verifAssert(k < len(inf) && inf[k] == j, "InformativeSites: every site with two characters occurring twice, in order")
 			k++
 		}
 	}
 	verifAssert(len(inf) == k, "InformativeSites: nothing but informative sites")
-	inf2 := al.InformativeSites()
 	verifAssert(len(inf2) == len(inf), "InformativeSites: same answer twice (size)")
 	for x := range inf {
 		verifAssert(x < len(inf2) && inf[x] == inf2[x], "InformativeSites: same answer twice")
 	}
-	if nongap > 0 {
-		verifReach("alleles")
-		avg := al.AvgAllelesPerSite()
-		verifAssert(avg == float64(alleles)/float64(nongap), "AvgAllelesPerSite: mean number of distinct non-gap characters over the sites that are not gap-only")
-		verifAssert(al.AvgAllelesPerSite() == avg, "AvgAllelesPerSite: same answer twice")
+}
+
+// H_C14_informative: InformativeSites lists exactly the sites with at least two characters (gap and the alphabet's wildcard N/X excepted) that occur at least twice.
+// bounds: every content enumerated for: nucleotides n in 4..5 rows, L=1 over {A,C,N,-}; amino acids n=4, L=1 over {A,N,X,-} (N is asparagine there); nucleotides n=4, L=2 over {A,C}
+// outside: other shapes and residues; X in nucleotide alignments ("X, N and gaps are not considered": not stated per alphabet); lower-case residues, '.', '*'
+func H_C14_informative() {
+	switch nondetRange(0, 2) {
+	case 0:
+		vfC14Informative(nondetRange(4, 5), 1, NUCLEOTIDS, []uint8{'A', 'C', 'N', '-'})
+	case 1:
+		vfC14Informative(4, 1, AMINOACIDS, []uint8{'A', 'N', 'X', '-'})
+	case 2:
+		vfC14Informative(4, 2, NUCLEOTIDS, []uint8{'A', 'C'})
 	}
 }
 
-// H_C14_site_measures: NbVariableSites, InformativeSites, AvgAllelesPerSite equal their naive definitions; same answer twice.
-// bounds: n<=4 rows, L<=2 columns, both alphabets, residues printable ASCII except lower-case letters, '.', '*' (and X in nucleotide alignments)
-// outside: n>4, L>2; lower-case residues and . * (treatment not documented uniformly); alignments whose every column is gap-only for AvgAllelesPerSite (0/0, caveat b)
-func H_C14_site_measures() { vfC14SiteMeasures(4, 2) }
-
-// H_C14_site_measures_deep: as H_C14_site_measures with 5 rows (three characters twice is impossible below 6; two pairs plus a single).
-// bounds: n<=5 rows, L<=2 columns
-// outside: n>5
-//verif: tier=thorough
-func H_C14_site_measures_deep() { vfC14SiteMeasures(5, 2) }
+// H_C14_informative_deep: as H_C14_informative, larger contents.
+// bounds: every content enumerated for: nucleotides n=6, L=1 over {A,C,G,N,-}; amino acids n=5, L=1 over {A,C,N,X,-}; nucleotides n=4, L=2 over {A,C,-}
+// outside: other shapes and residues
+// verif: tier=thorough
+func H_C14_informative_deep() {
+	switch nondetRange(0, 2) {
+	case 0:
+		vfC14Informative(6, 1, NUCLEOTIDS, []uint8{'A', 'C', 'G', 'N', '-'})
+	case 1:
+		vfC14Informative(5, 1, AMINOACIDS, []uint8{'A', 'C', 'N', 'X', '-'})
+	case 2:
+		vfC14Informative(4, 2, NUCLEOTIDS, []uint8{'A', 'C', '-'})
+	}
+}
 
 // ---------------------------------------------------------------------------------------
 // PSSM
@@ -625,9 +701,13 @@ func vfC14Pssm(nmax, lmax int) {
 		assume(norm < 0 || norm > 4)
 	}
 	lg := nondetRange(0, 1) == 1
-	pc := nondetDyadic(4, 0, 8) // pseudo-count k/4, k in 0..8
-	if lg {
-		assume(pc > 0) // log2(0) is outside the claim
+	var pc float64
+	if norm == PSSM_NORM_NONE && !lg {
+		pc = nondetDyadic(4, 0, 8) // plain counts: any pseudo-count k/4, k in 0..8 (linear)
+	} else if lg {
+		pc = float64(nondetRange(1, 2)) * 0.75 // log2(0) is outside the claim
+	} else {
+		pc = float64(nondetRange(0, 2)) * 0.75
 	}
 	m1, err1 := al.Pssm(lg, pc, norm)
 	m2, err2 := al.Pssm(lg, pc, norm)
@@ -651,6 +731,7 @@ func vfC14Pssm(nmax, lmax int) {
 					cnt++
 				}
 			}
+			cnt = vfC14Conc(cnt)
 			want := float64(cnt) + pc
 			switch norm {
 			case PSSM_NORM_FREQ:
@@ -668,342 +749,13 @@ func vfC14Pssm(nmax, lmax int) {
 }
 
 // H_C14_pssm: Pssm columns are the case-folded counts plus pseudo-count, normalised (none / site frequency / uniform), optionally log2 (ln uninterpreted); unknown normalisation is an error.
-// bounds: nucleotide alignment n<=2 rows, L<=2 columns, residues printable ASCII (mixed case), pseudo-count k/4 for k in 0..8 (k>=1 with log), normalisation NONE/FREQ/UNIF or any int outside 0..4
-// outside: IEEE rounding (real arithmetic); DATA and LOGO normalisations; amino-acid alignments; log of a zero count; map iteration orders (every value is computed independently of the others)
+// bounds: nucleotide alignment n<=2 rows, L<=2 columns, residues printable ASCII (mixed case); normalisation NONE/FREQ/UNIF or any int outside 0..4; pseudo-count any k/4 (k in 0..8) for plain counts, 0, 0.75, 1.5 otherwise (0.75, 1.5 with log)
+// outside: IEEE rounding (real arithmetic); DATA and LOGO normalisations; amino-acid alignments; log of a zero count; other pseudo-counts; map iteration orders (every value is computed independently of the others)
+// verif: merge=0
 func H_C14_pssm() { vfC14Pssm(2, 2) }
 
 // H_C14_pssm_deep: as H_C14_pssm with 3 rows.
 // bounds: n<=3 rows, L<=2 columns
 // outside: n>3
-//verif: tier=thorough
+// verif: merge=0 tier=thorough
 func H_C14_pssm_deep() { vfC14Pssm(3, 2) }
-
-// ---------------------------------------------------------------------------------------
-// residues and gaps unique in their column
-
-func vfC14Unique(nmax, lmax int) {
-	n := nondetRange(1, nmax)
-	L := nondetRange(1, lmax)
-	alphabet := vfC14Alphabet()
-	wild := vfC14Wild(alphabet)
-	al, orig := vfSymAlign(alphabet, n, L, vfC14NoLower)
-	// optional reference profile, built from a second alignment of m rows
-	var prof *CountProfile
-	var porig [][]uint8
-	m := nondetRange(0, 1)
-	plen := L
-	if m > 0 {
-		if nondetRange(0, 3) == 0 {
-			plen = L + 1 // profile of another length: error expected
-		}
-		pal := NewAlign(alphabet)
-		porig = make([][]uint8, m)
-		for i := 0; i < m; i++ {
-			s := make([]uint8, plen)
-			porig[i] = make([]uint8, plen)
-			for j := range s {
-				s[j] = nondetByte()
-				assume(vfC14NoLower(s[j]))
-				porig[i][j] = s[j]
-			}
-			pal.AddSequenceChar(vfNames[i], s, "")
-		}
-		prof = NewCountProfileFromAlignment(pal)
-	}
-	gu, gn, gb, gerr := al.NumGapsUniquePerSequence(prof)
-	mu, mn, mb, merr := al.NumMutationsUniquePerSequence(prof)
-	verifReach("unique")
-	if plen != L {
-		verifReach("profile length mismatch")
-		verifAssert(gerr != nil && merr != nil, "profile of another length is an error")
-		return
-	}
-	verifAssert(gerr == nil && merr == nil, "no error")
-	verifAssert(len(gu) == n && len(gn) == n && len(gb) == n && len(mu) == n && len(mn) == n && len(mb) == n, "one value per sequence")
-	inProfile := func(c uint8, j int) bool {
-		in := false
-		for i := 0; i < m; i++ {
-			if porig[i][j] == c {
-				in = true
-			}
-		}
-		return in
-	}
-	for i := 0; i < n; i++ {
-		wgu, wgn, wgb, wmu, wmn, wmb := 0, 0, 0, 0, 0, 0
-		for j := 0; j < L; j++ {
-			c := orig[i][j]
-			cnt := 0
-			for i2 := 0; i2 < n; i2++ {
-				if orig[i2][j] == c {
-					cnt++
-				}
-			}
-			isNew := m > 0 && !inProfile(c, j)
-			if c == '-' {
-				if cnt == 1 {
-					wgu++
-				}
-				if isNew {
-					wgn++
-				}
-				if cnt == 1 && isNew {
-					wgb++
-				}
-			} else if c != wild {
-				if cnt == 1 {
-					wmu++
-				}
-				if isNew {
-					wmn++
-				}
-				if cnt == 1 && isNew {
-					wmb++
-				}
-			}
-		}
-		verifAssert(gu[i] == wgu, "NumGapsUniquePerSequence: gaps alone in their column")
-		verifAssert(gn[i] == wgn, "NumGapsUniquePerSequence: gaps not seen in the profile at that site")
-		verifAssert(gb[i] == wgb, "NumGapsUniquePerSequence: gaps both unique and new")
-		verifAssert(mu[i] == wmu, "NumMutationsUniquePerSequence: residues (not gap, not N/X) alone in their column")
-		verifAssert(mn[i] == wmn, "NumMutationsUniquePerSequence: residues not seen in the profile at that site")
-		verifAssert(mb[i] == wmb, "NumMutationsUniquePerSequence: residues both unique and new")
-	}
-	gu2, gn2, gb2, _ := al.NumGapsUniquePerSequence(prof)
-	mu2, mn2, mb2, _ := al.NumMutationsUniquePerSequence(prof)
-	for i := 0; i < n; i++ {
-		verifAssert(gu2[i] == gu[i] && gn2[i] == gn[i] && gb2[i] == gb[i], "NumGapsUniquePerSequence: same answer twice")
-		verifAssert(mu2[i] == mu[i] && mn2[i] == mn[i] && mb2[i] == mb[i], "NumMutationsUniquePerSequence: same answer twice")
-	}
-}
-
-// H_C14_unique: per-sequence counts of gaps and residues that are unique in their column, new with respect to a profile, or both.
-// bounds: n<=3 rows, L<=2 columns, both alphabets, residues printable ASCII without lower-case letters; profile absent or built from a 1-row alignment of length L or L+1
-// outside: n>3, L>2, lower-case residues (n/x as wildcard not documented), bytes >= 0x80
-func H_C14_unique() { vfC14Unique(3, 2) }
-
-// ---------------------------------------------------------------------------------------
-// differences with the first sequence
-
-// H_C14_countdiff: CountDifferences lists every (first,other) residue pair seen and counts it per sequence.
-// bounds: n<=3 rows, L<=2 columns, residues printable ASCII
-// outside: n>3, L>2, alignments without rows
-func H_C14_countdiff() {
-	n := nondetRange(1, 3)
-	L := nondetRange(1, 2)
-	al, orig := vfSymAlign(NUCLEOTIDS, n, L, vfC14Print)
-	all, diffs := al.CountDifferences()
-	all2, diffs2 := al.CountDifferences()
-	verifReach("countdiff")
-	verifAssert(len(diffs) == n-1 && len(diffs2) == n-1, "one table per sequence after the first")
-	distinct := 0
-	for i := 1; i < n; i++ {
-		nd := 0
-		for l := 0; l < L; l++ {
-			a, b := orig[0][l], orig[i][l]
-			if a == b {
-				continue
-			}
-			nd++
-			key := string([]uint8{a, b})
-			want := 0
-			for l2 := 0; l2 < L; l2++ {
-				if orig[0][l2] == a && orig[i][l2] == b {
-					want++
-				}
-			}
-			verifAssert(diffs[i-1][key] == want, "count of the REF-NEW pair in that sequence")
-			verifAssert(diffs2[i-1][key] == want, "same counts twice")
-			cnt := 0
-			for _, k := range all {
-				if k == key {
-					cnt++
-				}
-			}
-			verifAssert(cnt == 1, "every pair seen is listed once")
-			// first time this pair is seen (over sequences then positions)?
-			seen := false
-			for i2 := 1; i2 <= i; i2++ {
-				for l2 := 0; l2 < L; l2++ {
-					if (i2 < i || l2 < l) && orig[0][l2] == a && orig[i2][l2] == b {
-						seen = true
-					}
-				}
-			}
-			if !seen {
-				distinct++
-			}
-		}
-		s := 0
-		for _, v := range diffs[i-1] {
-			s += v
-		}
-		verifAssert(s == nd, "counts sum to the number of positions that differ from the first sequence")
-		verifAssert(len(diffs2[i-1]) == len(diffs[i-1]), "same tables twice")
-	}
-	verifAssert(len(all) == distinct, "nothing but pairs seen")
-	verifAssert(len(all2) == len(all), "same list twice (size)")
-	for k := range all {
-		verifAssert(k < len(all2) && all[k] == all2[k], "same list twice")
-	}
-}
-
-// ---------------------------------------------------------------------------------------
-// mutations relative to a reference sequence
-
-func vfC14IupacUpper(c uint8) bool {
-	return c == '-' || (c >= 'A' && c <= 'Z' && vfMask(c) != 0 && c != 'U')
-}
-
-// vfC14Differs: the residue c of the compared sequence is a difference with respect to
-// the reference residue r. Nucleotides: IUPAC codes sharing a nucleotide are compatible;
-// '-' is compatible with '-' only.
-func vfC14Differs(alphabet int, c, r uint8) bool {
-	if c == r {
-		return false
-	}
-	if alphabet == NUCLEOTIDS {
-		return vfMask(c)&vfMask(r) == 0
-	}
-	return true
-}
-
-func vfC14RefMut(nmax, lmax int) {
-	n := nondetRange(1, nmax)
-	L := nondetRange(1, lmax)
-	alphabet := vfC14Alphabet()
-	wild := vfC14Wild(alphabet)
-	ok := vfC14Plain
-	if alphabet == NUCLEOTIDS {
-		ok = vfC14IupacUpper
-	}
-	al, orig := vfSymAlign(alphabet, n, L, ok)
-	refi := nondetRange(0, n-1)
-	cmpi := nondetRange(0, n-1)
-	ref, _ := al.Sequence(refi)
-	s, _ := al.Sequence(cmpi)
-	r, c := orig[refi], orig[cmpi]
-
-	num, err := s.NumMutationsComparedToReferenceSequence(alphabet, ref)
-	num2, _ := s.NumMutationsComparedToReferenceSequence(alphabet, ref)
-	verifReach("nummut")
-	verifAssert(err == nil, "NumMutations: no error on sequences of the same length")
-	want := 0
-	for j := 0; j < L; j++ {
-		if c[j] != '-' && c[j] != wild && vfC14Differs(alphabet, c[j], r[j]) {
-			want++
-		}
-	}
-	verifAssert(num == want, "NumMutations: residues (not gap, not N/X) incompatible with the reference residue")
-	verifAssert(num2 == num, "NumMutations: same answer twice")
-	if refi == cmpi {
-		verifAssert(num == 0, "NumMutations: a sequence has no mutation with respect to itself")
-	}
-
-	muts, lerr := s.ListMutationsComparedToReferenceSequence(alphabet, ref, false)
-	muts2, _ := s.ListMutationsComparedToReferenceSequence(alphabet, ref, false)
-	verifReach("listmut")
-	verifAssert(lerr == nil, "ListMutations: no error on sequences of the same length")
-	// expected list: walk the columns; columns where the reference has a gap extend the
-	// current insertion (non-gap residues only); other columns first flush the insertion,
-	// then list a substitution or deletion when the residue is not N/X and incompatible.
-	k := 0
-	pos := 0 // position on the reference without gaps
-	var ins []uint8
-	flush := func() {
-		if len(ins) > 0 {
-			verifReach("insertion")
-			verifAssert(k < len(muts), "ListMutations: insertion listed")
-			if k < len(muts) {
-				mu := muts[k]
-				verifAssert(mu.Ref == '-' && mu.Pos == pos, "ListMutations: insertion has reference '-' and the position of the next reference residue")
-				verifAssert(len(mu.Alt) == len(ins), "ListMutations: consecutive inserted residues are grouped")
-				for x := range ins {
-					verifAssert(x < len(mu.Alt) && mu.Alt[x] == ins[x], "ListMutations: inserted residues in order")
-				}
-			}
-			k++
-			ins = nil
-		}
-	}
-	for j := 0; j < L; j++ {
-		if r[j] == '-' {
-			if c[j] != '-' {
-				ins = append(ins, c[j])
-			}
-			continue
-		}
-		flush()
-		if c[j] != wild && vfC14Differs(alphabet, c[j], r[j]) {
-			verifReach("substitution or deletion")
-			verifAssert(k < len(muts), "ListMutations: substitution/deletion listed")
-			if k < len(muts) {
-				mu := muts[k]
-				verifAssert(mu.Ref == r[j] && mu.Pos == pos, "ListMutations: reference residue and ungapped reference position")
-				verifAssert(len(mu.Alt) == 1 && mu.Alt[0] == c[j], "ListMutations: alternative residue")
-			}
-			k++
-		}
-		pos++
-	}
-	flush()
-	verifAssert(len(muts) == k, "ListMutations: nothing else is listed")
-	verifAssert(len(muts2) == len(muts), "ListMutations: same answer twice (size)")
-	for x := range muts {
-		if x < len(muts2) {
-			verifAssert(muts[x].Ref == muts2[x].Ref && muts[x].Pos == muts2[x].Pos && len(muts[x].Alt) == len(muts2[x].Alt), "ListMutations: same answer twice")
-		}
-	}
-}
-
-// H_C14_refmut: NumMutationsComparedToReferenceSequence and ListMutationsComparedToReferenceSequence (nucleotide-wise mode) against a chosen reference row.
-// bounds: n<=2 rows, L<=3 columns; nucleotides: upper-case IUPAC codes and '-'; amino acids: printable ASCII without lower-case letters, '.', '*'; reference and compared row any pair (also the same row)
-// outside: L>3; lower-case residues, U, X . * in nucleotide sequences (compatibility of non-IUPAC symbols not documented); codon-wise list (aa=true)
-func H_C14_refmut() { vfC14RefMut(2, 3) }
-
-// H_C14_refmut_len: sequences of different lengths are an error for both functions.
-// bounds: two sequences of lengths 0..2, upper-case IUPAC residues, both alphabets
-// outside: longer sequences
-func H_C14_refmut_len() {
-	alphabet := vfC14Alphabet()
-	l1 := nondetRange(0, 2)
-	l2 := nondetRange(0, 2)
-	mk := func(l int) *seq {
-		s := make([]uint8, l)
-		for j := range s {
-			s[j] = nondetByte()
-			assume(vfC14IupacUpper(s[j]))
-		}
-		return NewSequence("s", s, "")
-	}
-	a, b := mk(l1), mk(l2)
-	_, e1 := a.NumMutationsComparedToReferenceSequence(alphabet, b)
-	_, e2 := a.ListMutationsComparedToReferenceSequence(alphabet, b, false)
-	verifReach("len")
-	if l1 != l2 {
-		verifReach("different lengths")
-		verifAssert(e1 != nil && e2 != nil, "different lengths are an error")
-	} else {
-		verifAssert(e1 == nil && e2 == nil, "same length accepted")
-	}
-}
-
-// H_C14_compatible: EqualOrCompatible on IUPAC bit codes: equal or sharing a nucleotide; codes above 15 are an error.
-// bounds: both codes any byte
-// outside: nothing
-func H_C14_compatible() {
-	a, b := nondetByte(), nondetByte()
-	ok, err := EqualOrCompatible(a, b)
-	ok2, err2 := EqualOrCompatible(a, b)
-	verifReach("compat")
-	verifAssert(ok == ok2 && (err == nil) == (err2 == nil), "same answer twice")
-	if a > 15 || b > 15 {
-		verifReach("bad code")
-		verifAssert(err != nil, "a code that is no IUPAC set is an error")
-		return
-	}
-	verifAssert(err == nil, "valid codes accepted")
-	verifAssert(ok == (a == b || a&b != 0), "compatible iff equal or sharing a nucleotide")
-	okr, _ := EqualOrCompatible(b, a)
-	verifAssert(ok == okr, "symmetric")
-}
